@@ -176,6 +176,8 @@ func (g *Gen) siteRequires(st *State, ins ssa.Instruction, key string, pos token
 		if ct == nil {
 			continue
 		}
+		g.markSite(k)
+		g.sitePos = ins.Pos()
 		env := g.baseEnv(st)
 		g.addLets(env)
 		g.bindLocalsForSite(env, st)
@@ -424,8 +426,9 @@ func (g *Gen) havocLocation(st *State, env *Env, loc string) error {
 				cur := g.sc.lookup(st, tag)
 				n := g.sc.fresh("hve_"+tag, g.sc.tagSort[tag])
 				g.sc.emit("(assert (forall ((r Ref)) (! (=> (not (= (rb r) (rb (sarr %s)))) (= (select %s r) (select %s r))) :pattern ((select %s r)))))", v.t, n, cur, n)
+				g.sc.emit("(assert (=> (= (slen %s) 0) (= %s %s)))", v.t, n, cur)
 				st.mem[tag] = n
-				g.frameWrite(st, tag, fmt.Sprintf("(rb (sarr %s))", v.t), cur, n)
+				g.frameWriteX(st, tag, fmt.Sprintf("(rb (sarr %s))", v.t), cur, n, fmt.Sprintf("(= (slen %s) 0)", v.t))
 			}
 			return nil
 		case *types.Pointer:
@@ -948,11 +951,16 @@ func (g *Gen) siteContract(ins ssa.Instruction, key string) *Contract {
 			n++
 		}
 	}
-	return g.eng.db.Contracts[fmt.Sprintf("%s%d", prefix, n)]
+	k := fmt.Sprintf("%s%d", prefix, n)
+	if g.eng.db.Contracts[k] != nil {
+		g.markSite(k)
+	}
+	return g.eng.db.Contracts[k]
 }
 
 func (g *Gen) applySiteContract(st *State, v ssa.Value, ct *Contract, sig *types.Signature, pos token.Pos) {
 	g.eng.usedContracts[ct.Key] = true
+	g.sitePos = pos
 	pre := g.baseEnv(st)
 	pre.old = st
 	g.bindLocalsForSite(pre, st)
@@ -1035,13 +1043,148 @@ func (g *Gen) bindLocalsForSite(e *Env, st *State) {
 		}
 	}
 	for name, vs := range byName {
-		if _, has := e.vars[name]; has || len(vs) != 1 {
+		if _, has := e.vars[name]; has {
+			continue
+		}
+		if len(vs) != 1 {
+			// several SSA values carry the name: take the one of the last textual reference before the site, if that
+			// reference dominates the site and no loop around the site re-binds the name
+			if v := g.valueAtSite(name); v != nil {
+				if t, ok := g.val[v]; ok {
+					e.vars[name] = tv{t: t, ty: goT(v.Type())}
+				}
+			}
 			continue
 		}
 		if t, ok := g.val[vs[0]]; ok {
 			e.vars[name] = tv{t: t, ty: goT(vs[0].Type())}
 		}
 	}
+}
+
+func (g *Gen) valueAtSite(name string) ssa.Value {
+	if g.sitePos == token.NoPos || g.curBlock == nil {
+		return nil
+	}
+	// definitions/uses carrying the variable's value: DebugRefs of the name and lifted phis commented with it
+	// the variable of that name whose scope is the innermost one around the site
+	var obj0 types.Object
+	for _, b := range g.fn.Blocks {
+		for _, ins := range b.Instrs {
+			if d, ok := ins.(*ssa.DebugRef); ok && !d.IsAddr && d.Object() != nil && d.Object().Name() == name {
+				if v, isVar := d.Object().(*types.Var); isVar && v.Parent() != nil && v.Parent().Contains(g.sitePos) {
+					if obj0 == nil || obj0.Parent().Contains(v.Parent().Pos()) && obj0.Parent() != v.Parent() {
+						obj0 = v
+					}
+				}
+			}
+		}
+	}
+	if obj0 == nil {
+		return nil
+	}
+	type occ struct {
+		b   *ssa.BasicBlock
+		idx int
+		v   ssa.Value
+	}
+	var all []occ
+	for _, b := range g.fn.Blocks {
+		for i, ins := range b.Instrs {
+			switch d := ins.(type) {
+			case *ssa.DebugRef:
+				if d.IsAddr || d.Object() == nil || d.Object().Name() != name {
+					continue
+				}
+				if _, isVar := d.Object().(*types.Var); !isVar {
+					continue
+				}
+				if d.Object() != obj0 {
+					continue // another variable of the same name
+				}
+				all = append(all, occ{b, i, d.X})
+			case *ssa.Phi:
+				if d.Comment == name && obj0.Parent().Contains(d.Pos()) {
+					all = append(all, occ{b, i, d})
+				}
+			}
+		}
+	}
+	// position of the site inside its block
+	siteIdx := len(g.curBlock.Instrs)
+	for i, ins := range g.curBlock.Instrs {
+		if ins.Pos() == g.sitePos {
+			if _, isCall := ins.(ssa.CallInstruction); isCall {
+				siteIdx = i
+				break
+			}
+		}
+	}
+	// forward reaching-values analysis over the occurrences (every assignment to a named variable leaves a DebugRef in
+	// debug mode; a lifted phi carries the variable's name): IN[b] is the common value of all predecessors' OUT, or "many"
+	var many ssa.Value = (*ssa.Phi)(nil)
+	lastIn := map[*ssa.BasicBlock]*occ{}
+	for k := range all {
+		o := &all[k]
+		if cur := lastIn[o.b]; cur == nil || o.idx > cur.idx {
+			lastIn[o.b] = o
+		}
+	}
+	in := map[*ssa.BasicBlock]ssa.Value{}
+	out := map[*ssa.BasicBlock]ssa.Value{}
+	known := map[*ssa.BasicBlock]bool{}
+	for changed := true; changed; {
+		changed = false
+		for _, b := range g.fn.Blocks {
+			var v ssa.Value
+			seen := false
+			for _, p := range b.Preds {
+				if !known[p] {
+					continue
+				}
+				if !seen {
+					v, seen = out[p], true
+				} else if out[p] != v {
+					v = many
+				}
+			}
+			if len(b.Preds) == 0 {
+				seen = true // entry: undefined (nil)
+			}
+			if !seen {
+				continue
+			}
+			o := v
+			if l := lastIn[b]; l != nil {
+				o = l.v
+			}
+			if !known[b] || in[b] != v || out[b] != o {
+				known[b], in[b], out[b] = true, v, o
+				changed = true
+			}
+		}
+	}
+	var val ssa.Value = in[g.curBlock]
+	best := -1
+	for k := range all {
+		o := &all[k]
+		if o.b == g.curBlock && o.idx < siteIdx && o.idx > best {
+			best, val = o.idx, o.v
+		}
+	}
+	if val == nil || val == many {
+		return nil
+	}
+	return val
+}
+
+func (g *Gen) inSomeLoop(b *ssa.BasicBlock) bool {
+	for _, li := range g.loops {
+		if li.blocks[b] {
+			return true
+		}
+	}
+	return false
 }
 
 func (g *Gen) bumpFrontier(st *State) {
